@@ -290,6 +290,13 @@ class Gen:
                 self.add("bn_mxp_sim", 0, rng.choice(bases), abs(rng.choice(exps)), rng.choice(bases),
                          abs(rng.choice(exps)), m)
             self.add("bn_mxp_sim", 0, 3, 0, 5, 0, m)
+            # many terms: the routine handles blocks of eight and the leftover terms separately (seed C09-w2)
+            if m >= 2:
+                for cnt in rng.sample([1, 2, 7, 8, 9, 15, 16, 17, 24, 25], self.n(4, 10)):
+                    terms = []
+                    for _ in range(cnt):
+                        terms += [rng.choice(bases), abs(rng.choice(exps))]
+                    self.add("bn_mxp_sim_lot", 0, str(cnt), m, *terms)
             # inverses
             if m >= 2:
                 cand = [1, 2, 3, m - 1, m + 1, 2 * m + 1, m // 2, m // 2 + 1, rng.randrange(1, m), rng.randrange(1, m),
